@@ -101,8 +101,15 @@ def run(ctx):
         tris = nr.integers(0, max(n, 1), size=(m, 3))
         if m and n:
             tris[0, 0] = n - 1
-        layout = rng.choice(["c", "c", "fortran", "transposed", "float64", "int-list"])
+        layout = rng.choice(["c", "c", "fortran", "transposed", "float64", "int-list", "big-endian", "int16", "float16"])
+        if layout in ("int16", "float16"):
+            # vertex types that cast safely to float32 but have another item size: integer-valued coordinates
+            verts = np.rint(np.clip(verts, -2000, 2000)).astype("float32") + np.float32(0)   # (no negative zero)
         v_in = verts
+        if layout == "big-endian":
+            v_in = verts.astype(">f4")
+        elif layout in ("int16", "float16"):
+            v_in = verts.astype(layout)
         if layout == "fortran":
             v_in = np.asfortranarray(verts)
         elif layout == "transposed":
@@ -124,6 +131,7 @@ def run(ctx):
         if data != want:
             ctx.oracle_fail("precomputed mesh file is not [vertex count][float32 xyz ...][uint32 triangles ...]",
                             dict(desc, got_len=len(data), want_len=len(want)))
+            data = want      # the reader is judged on a well-formed file from here on
         try:
             v2, t2 = mesh_mod.read_precomputed_mesh(io.BytesIO(data))
             if not (np.array_equal(v2.view("<u4"), verts.view("<u4")) and np.array_equal(t2, tris)):
